@@ -38,7 +38,6 @@ theorem sampleLoop_lt (w : Width) (s : Stream) (range zn : Nat) (hr : 0 < range)
       refine ⟨?_, gen_pos w s p⟩
       have hv := gen_lt w s p
       apply Nat.div_lt_of_lt_mul
-      rw [Nat.mul_comm]
       exact Nat.mul_lt_mul_of_pos_right hv hr
     · have := ih _ r h
       exact ⟨this.1, Nat.lt_trans (gen_pos w s p) this.2⟩
